@@ -20,12 +20,16 @@ RULE = ("per named curve: encodings (raw/uncompressed/compressed/hybrid) of poin
         "operation line; non-trivial = the input reaches the point decoder (has one of the three accepted lengths) or "
         "the DER wrapper parser")
 ASSUMPTIONS = [
-    "the subgroup test and the modular square root are parameters of the model (Ext.subgroupOk, Ext.sqrtModP): the "
-    "correspondence feeds the model the values the real code computed; their own correctness is C06/C07 and C15",
-    "#E(F_p) = n for the 16 cofactor-1 named curves (SEC 2 / FIPS / RFC 5639 fact) — used by the search oracle and by "
-    "the h = 1 reading of the theorem",
+    "p prime, n prime for the curves of the table, and #E(F_p) = n for the 16 cofactor-1 curves (SEC 2 / FIPS / RFC 5639 "
+    "facts): hypotheses of from_string_accepts_iff_subgroup_cofactor_one (full statement, in Mathlib's point group); the "
+    "order of every base point is checked by the kernel (Proofs/NamedCurves)",
+    "the generic theorems take the subgroup test and the modular square root as parameters (Ext.subgroupOk, "
+    "Ext.sqrtModP); on the composed model KeysWire.modelExt they are the models of C06/C07 and C15, whose contracts "
+    "are theorems (sqrt: C15.sqrt_spec; n*P: GroupInterface.mul), and the correspondence runs every line both with the "
+    "values recorded from the real code and with those models",
     "K2 (open): on SECP112r2 and on toy curves with a point of order 2 the code's n*P == INFINITY accepts points of "
-    "order 2 and 2n; the theorem is stated with the code's subgroup test as a parameter (partial)",
+    "order 2 and 2n; for cofactor != 1 only the <= half (points of <G> are accepted) and the statement with the code's own "
+    "subgroup test are proved (partial); the counter-example is decided in Lean and replayed by the search",
 ]
 
 
